@@ -208,6 +208,34 @@ fn literal_soup(rng: &mut Rng) -> String {
     }
 }
 
+const HEAD: &[&str] = &[
+    "(", ")", "[", "]", "{", "}", "(", "[", "]", ")", ":", ":", ",", "=", "*", "**", ".", ";", " ", "\n", "\n    ", "\\\n", "lambda", "lambda:", "lambda x:",
+    "x", "X", "int", "_", "1", "'s'", "f'{x}'", "if", "else", "as", "in", "not", "match", "case", "type", "|", "->", ":=", "#c\n", "...",
+];
+
+/// A logical line that starts with a soft keyword (the token-stream look-ahead of soft_keywords.rs runs on it)
+/// followed by a soup of brackets (balanced or not, of mixed kinds), colons, lambdas, names and line breaks.
+fn header_soup(rng: &mut Rng) -> String {
+    let mut s = String::new();
+    let lines = 1 + rng.below(3);
+    for l in 0..lines {
+        if l > 0 {
+            s.push_str(["\n", "\n    ", ";", "\n\t", "\r\n"][rng.below(5)]);
+        }
+        s.push_str(["type ", "match ", "case ", "type X", "type X[", "match(", "case[", "match x", "case x", "type", "match", " type ", "if x: type "][rng.below(13)]);
+        for _ in 0..rng.below(14) {
+            s.push_str(HEAD[rng.below(HEAD.len())]);
+            if rng.below(3) == 0 {
+                s.push(' ');
+            }
+        }
+    }
+    if rng.below(2) == 0 {
+        s.push_str([":", ":\n    pass", " = int", ":\n case _: pass\n", "\n"][rng.below(5)]);
+    }
+    s
+}
+
 fn token_soup(rng: &mut Rng, maxlen: usize) -> String {
     let n = 1 + rng.below(40);
     let mut s = String::new();
@@ -258,6 +286,7 @@ pub fn op_fuzz(args: &[&str], payload: &[u8]) -> String {
         let text = match rng.below(20) {
             0 | 1 => token_soup(&mut rng, maxlen),
             2 | 3 | 4 => literal_soup(&mut rng),
+            5 | 6 => header_soup(&mut rng),
             _ => mutate(&mut rng, &seeds, maxlen),
         };
         let (mname, mode) = [("exec", Mode::Module), ("single", Mode::Interactive), ("eval", Mode::Expression)][rng.below(3)];
